@@ -67,6 +67,11 @@ def geometry(S, cfg):
         cells = g['bypass_params']['area'][i][0] * n_sc[1] + g['bypass_params']['area'][i][1] * 6
         S.eq(f'tiling.bypass[{i}]', cells, sq3 / 2 * (ftf[i + 1][0] * ftf[i + 1][0] - ftf[i][1] * ftf[i][1]))
         S.eq(f'tiling.bypass_total[{i}]', g['bypass_params']['total area'][i], cells)
+        # hydraulic diameter of the whole annulus = 4 A / wetted perimeter; the gap wets the OUTER face of duct i and the
+        # INNER face of duct i+1 (hexagon perimeter 2 sqrt3 x flat-to-flat); = twice the gap width
+        wetted = 6 / sq3 * (ftf[i][1] + ftf[i + 1][0])
+        S.eq(f'hydraulic.bypass_total_de[{i}]', g['bypass_params']['total de'][i] * wetted, 4 * cells)
+        S.eq(f'hydraulic.bypass_total_de_is_twice_the_gap[{i}]', g['bypass_params']['total de'][i], ftf[i + 1][0] - ftf[i][1])
     # centroid distances of the bypass cells (what the conduction between gap cells divides by), from the hexagons alone:
     # edge cells sit on the mid-gap hexagon one pin pitch apart; the corner cell sits on its vertex, which lies
     # (a_gap - a_row) / sqrt3 beyond the end of the outermost pin row (a = apothem; a_row that of the outer pin centres)
